@@ -431,6 +431,32 @@ def relay_same_schedules(seed, count):
     return out
 
 
+def reconnect_schedules(seed, count):
+    """The faulty member collects a complete signature set for one payload, delivers it to some members, DROPS ALL ITS
+    CONNECTIONS and dials again (the hosts hold real loopback connections), then asks for signatures over another payload under
+    the same session and id: the sign-once memory of the members must have survived its absence."""
+    r = vlib.rng(seed, "c13reconnect")
+    out = []
+    for _ in range(count):
+        n = r.choice([3, 4, 4, 5])
+        f = r.randint(1, n)
+        hon = [m for m in range(1, n + 1) if m != f]
+        s, i = r.choice(SESS), r.choice(IDS)
+        p1, p2 = P(f, "x"), P(f, "y")
+        st = [{"ev": "Cfg", "n": n, "faulty": [f]}]
+        st += [fsig(f, m, s, i, p1) for m in hon]
+        a = r.sample(hon, r.randint(1, len(hon) - 1)) if len(hon) > 1 else hon
+        st += [fsend(f, x, s, i, p1, exact(n, s, i, p1)) for x in a]
+        st.append({"ev": "Reconnect", "m": f})
+        if r.random() < 0.3:
+            st.append({"ev": "Reconnect", "m": r.choice(hon)})
+        st += [fsig(f, m, s, i, p2) for m in hon]
+        st += [fsend(f, x, s, i, p2, exact(n, s, i, p2)) for x in hon if x not in a]
+        st += [fsend(f, x, s, i, p1, exact(n, s, i, p1)) for x in hon if x not in a]
+        out.append(st)
+    return out
+
+
 def mutators():
     def flip_sig_ok(t):
         for e in t:
@@ -582,6 +608,10 @@ def run(tier, seed):
         return vlib.finish(o, "model_checking", RULE, ASSUMPTIONS)
     vlib.conformance(o, FAMILY, "BcastDKGTrace", "BcastDKGTrace.cfg", "c13", relay_same_schedules(seed, 40 if thorough else 8),
                      tag="relaysame", dev_cfgs=DEV, max_report=4)
+    if o.violations:
+        return vlib.finish(o, "model_checking", RULE, ASSUMPTIONS)
+    vlib.conformance(o, FAMILY, "BcastDKGTrace", "BcastDKGTrace.cfg", "c13", reconnect_schedules(seed, 30 if thorough else 6),
+                     tag="reconnect", dev_cfgs=DEV, max_report=4)
     if o.violations:
         return vlib.finish(o, "model_checking", RULE, ASSUMPTIONS)
     if len(o.known) == before:
